@@ -42,16 +42,17 @@ pub fn run_pass(device: &mut Device) -> anyhow::Result<()> {
 fn get_block_claimed_addresses(
     device: &Device,
     block: &Block,
-    current_address_offset: i64,
+    current_address_offset: i128,
     name_stack: &[String],
 ) -> anyhow::Result<Vec<ClaimedAddress>> {
     let mut claimed_adresses = Vec::new();
 
     for method in &block.methods {
         let current_address_offset =
-            current_address_offset + method.address.to_string().parse::<i64>().unwrap();
+            current_address_offset + method.address.to_string().parse::<i128>().unwrap();
 
-        let (repeat_count, repeat_stride, repeat): (i64, i64, bool) = match &method.kind {
+        // The addresses all fit in 64 bits, but what's calculated on the way there may not
+        let (repeat_count, repeat_stride, repeat): (i128, i128, bool) = match &method.kind {
             BlockMethodKind::Normal => (1, 0, false),
             BlockMethodKind::Repeated { count, stride } => (
                 count.to_string().parse().unwrap(),
@@ -121,8 +122,8 @@ enum ClaimedAddressType {
 
 struct ClaimedAddress {
     name: String,
-    repeat_index: Option<i64>,
-    address: i64,
+    repeat_index: Option<i128>,
+    address: i128,
     allow_overlap: bool,
     address_type: ClaimedAddressType,
 }
